@@ -304,6 +304,9 @@ def catalogue():
     SL = ("class A {\n\tx: int\n\tconstructor(self) {\n\t\tself.x = 1\n\t}\n\tfn all(self) -> [Self...] {\n\t\treturn [self]\n\t}\n\tfn maybe(self) -> Self? {\n\t\treturn self\n\t}\n\tfn table(self) -> map[str, Self] {\n\t\treturn map[str, Self] {\"k\": self}\n\t}\n}\n")
     for nm, e in (("list", "(a.all())[0]"), ("optional", "get a.maybe()"), ("map", "get (a.table())[\"k\"]")):
         c.append(("cat|self-nested-in-result-used-in-other-class:" + nm, SL + "class B {\n\tx: str\n\tconstructor(self) {\n\t\tself.x = \"s\"\n\t}\n\tfn t(self, a: A) -> str {\n\t\tq = %s\n\t\treturn q.x\n\t}\n}\na = A()\nb = B()\nprint \"@run\"\n" % e + probe("b.t(a)")))
+    for place, wrap in (("module", "%s"), ("function", "f = fn() -> int {\n\treturn %s\n}\n"), ("closure-in-function", "mk = fn() -> fn() -> int {\n\tc: int? = nil\n\treturn fn() -> int {\n\t\treturn (c) or %s\n\t}\n}\nf = mk()\n")):
+        body = {"module": "r = (a) or b\n", "function": wrap % "(a) or b", "closure-in-function": wrap % "((a) or b)"}[place]
+        c.append(("cat|or-with-optional-fallback-of-captured-operand:" + place, "a: int? = nil\nb: int? = nil\n" + body + "print \"@run\"\n" + (probe("r") if place == "module" else probe("f()"))))
     c.append(("cat|void-call-as-value", "f = fn() {\n}\nprint \"@run\"\nx = f()\nprint x\n"))
     c.append(("cat|map-missing-key-arith", "m = map[str, int] {\"a\": 1}\nprint \"@run\"\n" + probe("m[\"zz\"]") + "y = m[\"zz\"] + 1\nprint y\n"))
     c.append(("cat|list-of-optional-arith", "l: [int?...] = [1, nil]\nprint \"@run\"\nx = l[0] + 1\nprint x\n"))
